@@ -886,7 +886,9 @@ impl CommandExecutor for DrawExecutor {
                     return Err(anyhow::anyhow!("PolyLine requires {} arguments was {} ", points * 2 + 1, parameters.len()));
                 }
                 self.draw_polyline(&parameters[1..]);
-                self.cur_position = Position::new(parameters[parameters.len() - 2], parameters[parameters.len() - 1]);
+                if parameters.len() >= 3 {
+                    self.cur_position = Position::new(parameters[parameters.len() - 2], parameters[parameters.len() - 1]);
+                }
 
                 Ok(CallbackAction::Update)
             }
